@@ -435,6 +435,15 @@ theorem head_setters_keep_pending_covers (W : List Key) (k : Key) (hk : k ∈ W)
     Keeps (covInv W) (setHeadPos k p) ∧ Keeps (covInv W) (setHeadStatus k st) :=
   ⟨setHeadPos_pendingCovers W k p hk, setHeadStatus_pendingCovers W k st (Or.inl hk)⟩
 
+/-- **`slide` confines loose heads**: while head `h` of flow `f` slides — every element kind, forks and merges, scope ends
+    with their `_abort_flow`s, the `Abort` element — every loose head stays in the worklist `W` or belongs to `f`, on every
+    outcome (normal return or raise). -/
+theorem slide_confines_loose_heads (f : FUid) (W : List Key) (fuel : Nat) (h : HUid) :
+    Keeps (covFlowInv f W) (slide fuel f h) := slide_coversOrFlow f W fuel h
+
+/-- non-vacuity / link: a state satisfying `PendingCovers W` satisfies the confinement invariant of every flow -/
+example (f : FUid) (W : List Key) (s : VM) (h : PendingCovers W s) : (covFlowInv f W).J s := coversOrFlow_of_pendingCovers h
+
 /-
   T2 (partially proved; kept as the target statement):
 
